@@ -12,6 +12,8 @@ import (
 	"log"
 	"math"
 	"os"
+	"reflect"
+	"strings"
 	"testing"
 
 	"google.golang.org/grpc/encoding"
@@ -22,6 +24,7 @@ import (
 	"google.golang.org/protobuf/reflect/protoreflect"
 	"google.golang.org/protobuf/reflect/protoregistry"
 	"google.golang.org/protobuf/types/descriptorpb"
+	"google.golang.org/protobuf/types/dynamicpb"
 	"google.golang.org/protobuf/types/known/anypb"
 	"google.golang.org/protobuf/types/known/apipb"
 	"google.golang.org/protobuf/types/known/structpb"
@@ -54,6 +57,7 @@ type vfStep struct {
 	Type string `json:"type"`
 	Wire string `json:"wireHex"` // standard encoding of the content (how the replay rebuilds it)
 	How  string `json:"how,omitempty"`
+	Dyn  bool   `json:"dynamic,omitempty"` // the object is a dynamicpb message of that type instead of the generated Go type
 }
 
 type vfCodecCase struct {
@@ -61,6 +65,7 @@ type vfCodecCase struct {
 	Type     string   `json:"type,omitempty"`    // single-step form
 	Wire     string   `json:"wireHex,omitempty"` // single-step form
 	Steps    []vfStep `json:"steps,omitempty"`
+	Pad      int      `json:"underlyingCodecSpareCapacity,omitempty"` // >0: the wrapped codec returns its bytes in a slice with that much spare capacity
 	Failure  string   `json:"failure,omitempty"`
 }
 
@@ -162,6 +167,28 @@ func vfStripChecksum(m proto.Message) int {
 
 func vfNewCodec() *myCodec { return &myCodec{protoCodec: encoding.GetCodec(grpcproto.Name)} }
 
+// vfPadCodec is an underlying codec whose Marshal result has spare capacity (a codec is free to return such slices;
+// dynamicpb messages and pooled buffers do). Everything else is the stock proto codec.
+type vfPadCodec struct {
+	inner encoding.Codec
+	pad   int
+}
+
+func (p vfPadCodec) Marshal(v interface{}) ([]byte, error) {
+	b, err := p.inner.Marshal(v)
+	if err != nil {
+		return b, err
+	}
+	nb := make([]byte, len(b), len(b)+p.pad)
+	copy(nb, b)
+	for i := len(b); i < cap(nb); i++ {
+		nb[:cap(nb)][i] = 0xEE
+	}
+	return nb, nil
+}
+func (p vfPadCodec) Unmarshal(b []byte, v interface{}) error { return p.inner.Unmarshal(b, v) }
+func (p vfPadCodec) Name() string                            { return p.inner.Name() }
+
 func vfCheckCodec(m proto.Message) (failure string, labels map[string]int) {
 	return vfCheckCodecWith(vfNewCodec(), m)
 }
@@ -179,10 +206,17 @@ func vfCheckCodecWith(c *myCodec, m proto.Message) (failure string, labels map[s
 	if p != nil {
 		return fmt.Sprintf("Marshal panicked: %v", p), labels
 	}
-	if _, uerr := c.protoCodec.Marshal(proto.Clone(orig)); uerr != nil {
+	if _, uerr := encoding.GetCodec(grpcproto.Name).Marshal(proto.Clone(orig)); uerr != nil {
 		// e.g. a proto2 message with an unset required field: the underlying error must be passed through
 		labels["underlying-marshal-error-passed-through"]++
-		if err == nil || err.Error() != uerr.Error() {
+		same := err != nil && err.Error() == uerr.Error()
+		if _, dynamic := m.(*dynamicpb.Message); dynamic && err != nil && !same {
+			// a dynamic message with several unset required fields names whichever it meets first (map order): two calls of
+			// the underlying codec need not produce the same text
+			const pre = "proto: required field"
+			same = strings.HasPrefix(err.Error(), pre) && strings.HasPrefix(uerr.Error(), pre)
+		}
+		if !same {
 			return fmt.Sprintf("underlying codec fails with %v, the checksum codec returned %v", uerr, err), labels
 		}
 		return "", labels
@@ -241,6 +275,12 @@ func vfCheckCodecWith(c *myCodec, m proto.Message) (failure string, labels map[s
 		}
 	}
 	mapFree := !vfHasMap(m.ProtoReflect(), 0)
+	if _, dynamic := m.(*dynamicpb.Message); dynamic {
+		// a dynamic message keeps its fields in a Go map: the (non-deterministic) standard encoding may order them in any
+		// way, like map entries; the byte-for-byte comparison with the deterministic encoding does not apply
+		mapFree = false
+		labels["dynamic-message-field-order-free"]++
+	}
 	if mapFree {
 		labels["map-free"]++
 		std, err := proto.MarshalOptions{Deterministic: true}.Marshal(m)
@@ -461,6 +501,28 @@ func vfCheckErrors() string {
 	if _, err := real.Marshal(42); err == nil || werr == nil || err.Error() != werr.Error() {
 		return fmt.Sprintf("non-proto value: codec error %v, underlying codec error %v", err, werr)
 	}
+	// nil and typed-nil messages: whatever the underlying codec answers (an error, today) is passed through
+	nils := []interface{}{nil}
+	for _, r := range vfRoots {
+		nils = append(nils, reflect.Zero(reflect.TypeOf(r)).Interface())
+	}
+	for _, v := range nils {
+		wb, werr := encoding.GetCodec(grpcproto.Name).Marshal(v)
+		var b []byte
+		var err error
+		var p interface{}
+		func() {
+			defer func() { p = recover() }()
+			b, err = real.Marshal(v)
+		}()
+		if werr != nil {
+			if p != nil || err == nil || err.Error() != werr.Error() {
+				return fmt.Sprintf("Marshal(%T nil): underlying codec fails with %q, the checksum codec returned (% x, %v, panic %v)", v, werr, b, err, p)
+			}
+		} else if p != nil || err != nil || len(b) != len(wb)+6 {
+			return fmt.Sprintf("Marshal(%T nil): underlying codec returns % x, the checksum codec returned (% x, %v, panic %v)", v, wb, b, err, p)
+		}
+	}
 	return ""
 }
 
@@ -475,10 +537,13 @@ func vfRunOne(m proto.Message) (*vfCodecCase, string, map[string]int) {
 	return c, f, l
 }
 
-func vfNewOf(typ string) (proto.Message, error) {
+func vfNewOf(typ string, dyn bool) (proto.Message, error) {
 	mt, err := protoregistry.GlobalTypes.FindMessageByName(protoreflect.FullName(typ))
 	if err != nil {
 		return nil, err
+	}
+	if dyn {
+		return dynamicpb.NewMessage(mt.Descriptor()), nil
 	}
 	return mt.New().Interface(), nil
 }
@@ -584,18 +649,26 @@ func vfRunHistory(c *vfCodecCase) (string, map[string]int, int) {
 		steps = []vfStep{{Type: c.Type, Wire: c.Wire}}
 	}
 	codec := vfNewCodec()
+	if c.Pad > 0 {
+		codec.protoCodec = vfPadCodec{codec.protoCodec, c.Pad}
+		labels["underlying-codec-returns-spare-capacity"]++
+	}
 	slots := map[int]proto.Message{}
+	isDyn := map[int]bool{}
 	for i, s := range steps {
 		b, err := hex.DecodeString(s.Wire)
 		if err != nil {
 			return "harness: " + err.Error(), labels, i
 		}
 		m := slots[s.Obj]
-		if m == nil || string(m.ProtoReflect().Descriptor().FullName()) != s.Type {
-			if m, err = vfNewOf(s.Type); err != nil {
+		if m == nil || string(m.ProtoReflect().Descriptor().FullName()) != s.Type || isDyn[s.Obj] != s.Dyn {
+			if m, err = vfNewOf(s.Type, s.Dyn); err != nil {
 				return "harness: " + err.Error(), labels, i
 			}
-			slots[s.Obj] = m
+			slots[s.Obj], isDyn[s.Obj] = m, s.Dyn
+			if s.Dyn {
+				labels["dynamicpb-message"]++
+			}
 		} else {
 			labels["object-reused-in-place"]++
 			proto.Reset(m)
@@ -618,7 +691,11 @@ func vfRunHistory(c *vfCodecCase) (string, map[string]int, int) {
 // earlier (mostly same-size edits), several live objects interleaved.
 func vfGenHistory(rt *rapid.T) *vfCodecCase {
 	c := &vfCodecCase{}
+	if rapid.IntRange(0, 4).Draw(rt, "padded") == 0 {
+		c.Pad = rapid.SampledFrom([]int{1, 5, 6, 7, 64, 4096}).Draw(rt, "pad")
+	}
 	live := map[int]proto.Message{}
+	dyn := map[int]bool{}
 	n := 1
 	if rapid.IntRange(0, 2).Draw(rt, "multi") == 0 {
 		n = rapid.IntRange(2, 6).Draw(rt, "steps")
@@ -632,6 +709,7 @@ func vfGenHistory(rt *rapid.T) *vfCodecCase {
 		case m == nil || kind == 0:
 			m = vfGenMessage(rt)
 			live[slot] = m
+			dyn[slot] = rapid.IntRange(0, 5).Draw(rt, "dyn") == 0
 		case kind == 1:
 			how = "unchanged"
 		default:
@@ -639,6 +717,7 @@ func vfGenHistory(rt *rapid.T) *vfCodecCase {
 			if len(sites) == 0 {
 				m = vfGenMessage(rt)
 				live[slot] = m
+				dyn[slot] = false
 				break
 			}
 			before := proto.Size(m)
@@ -652,7 +731,7 @@ func vfGenHistory(rt *rapid.T) *vfCodecCase {
 				how = "edited-in-place-other-size"
 			}
 		}
-		c.Steps = append(c.Steps, vfStep{Obj: slot, Type: string(m.ProtoReflect().Descriptor().FullName()), Wire: vfWireOf(m), How: how})
+		c.Steps = append(c.Steps, vfStep{Obj: slot, Type: string(m.ProtoReflect().Descriptor().FullName()), Wire: vfWireOf(m), How: how, Dyn: dyn[slot]})
 	}
 	return c
 }
